@@ -253,20 +253,20 @@ def nat_tasks(progs, run, pool):
     quick = run.tier == "quick"
     rng = run.rng("nat-plan")
     allidx = [i for i, (c, _v) in enumerate(pool) if c != "slow"]
-    p1 = N.thin(pool, 12, rng) if quick else allidx          # primary programs, one slot
+    p1 = N.thin(pool, 10, rng) if quick else allidx          # primary programs, one slot
     v1 = N.thin(pool, 4, rng) if quick else N.thin(pool, 8, rng)   # filter-argument variants, one slot
     p2 = N.thin(pool, 2, rng) if quick else N.thin(pool, 4, rng)
     v2 = N.thin(pool, 1, rng) if quick else N.thin(pool, 2, rng)
     t1 = N.thin(pool, 1, rng)
     p3 = sorted(rng.sample(t1, 20)) if quick else t1
     scale = 1.0 if quick else 2.0
-    rand_n = run.size(20000, 400000)
-    prod_cap = run.size(120000, 2500000)
+    rand_n = run.size(10000, 400000)
+    prod_cap = run.size(60000, 2500000)
     cap = 60000
     tasks = []
     sizes = collections.Counter()
 
-    def add(p, lists, rn=0, timeout=6.0, limit=None):
+    def add(p, lists, rn=0, timeout=8.0, limit=None):
         if lists:
             lists = [list(l) for l in lists]
             limit = limit or prod_cap
@@ -706,6 +706,17 @@ def minimise(key, case):
             b = list(bytes.fromhex(case["input"][tag]))
             res = ddmin(b, lambda bs: same(dict(case, input={tag: bytes(bs).hex()})))
             return dict(case, input={tag: bytes(res).hex()})
+        if case["k"] == "evalc" and isinstance(case.get("input"), list):
+            # a tuple of arguments: shrink long arrays inside it (e.g. the array handed to `sort`)
+            tup = list(case["input"])
+            changed = False
+            for j, w in enumerate(tup):
+                if isinstance(w, list) and len(w) > 6:
+                    res = ddmin(list(w), lambda xs: same(dict(case, input=tup[:j] + [xs] + tup[j + 1:])), budget=200)
+                    if len(res) < len(w):
+                        tup[j] = res
+                        changed = True
+            return dict(case, input=tup) if changed else None
     except Exception as e:  # minimisation is best effort
         return None
     finally:
